@@ -92,7 +92,7 @@ mod vk_iter {
             i += 1;
         }
         if !admitted {
-            assert!(flag_true_seen || passed_seen, "[C09 C05 C06 iter-give-up] a pull gives up its reservation only after it observed `completed` or `yielded` beyond its ticket (otherwise later tickets wait for it forever)");
+            assert!(flag_true_seen || passed_seen, "[C09 C05 C06 C01 C12 iter-give-up] a pull gives up its reservation only after it observed `completed` or `yielded` beyond its ticket (otherwise later tickets wait for it forever)");
         }
         if admitted && !flag_true_seen {
             assert!(published, "[C09 iter-progress] a ticket holder that returns has advanced `yielded` by its reservation or set `completed`");
@@ -101,7 +101,7 @@ mod vk_iter {
         (b, admitted, items, ended)
     }
 
-    // @harness name=iter_next group=default,nodebug props_nodebug=C17 props=C01,C02,C04,C05,C06,C07,C09,C11 kind=bounded bound="fruitless polls <= 2; ticket, yielded, iterator position over the full usize domain"
+    // @harness name=iter_next group=default,nodebug props_nodebug=C17 props=C01,C02,C04,C05,C06,C07,C09,C11,C12 kind=bounded bound="fruitless polls <= 2; ticket, yielded, iterator position over the full usize domain"
     #[kani::proof]
     #[kani::unwind(18)]
     #[kani::stub(std::sync::atomic::Atomic::<usize>::fetch_add, a_faa)]
@@ -134,7 +134,7 @@ mod vk_iter {
         let _ = len;
     }
 
-    // @harness name=iter_chunk group=default,nodebug props_nodebug=C17 props=C01,C02,C03,C04,C05,C06,C07,C09,C11,C16 kind=bounded bound="chunk size <= 2; fruitless polls <= 2; ticket, yielded, iterator position over the full usize domain"
+    // @harness name=iter_chunk group=default,nodebug props_nodebug=C17 props=C01,C02,C03,C04,C05,C06,C07,C09,C11,C16,C12 kind=bounded bound="chunk size <= 2; fruitless polls <= 2; ticket, yielded, iterator position over the full usize domain"
     #[kani::proof]
     #[kani::unwind(18)]
     #[kani::stub(std::sync::atomic::Atomic::<usize>::fetch_add, a_faa)]
@@ -261,7 +261,7 @@ mod vk_iter {
         }
     }
 
-    // @harness name=iter_buffered group=default,nodebug props_nodebug=C17 props=C01,C02,C03,C04,C05,C06,C07,C09,C11 kind=bounded bound="chunk size == 2; fruitless polls <= 2"
+    // @harness name=iter_buffered group=default,nodebug props_nodebug=C17 props=C01,C02,C03,C04,C05,C06,C07,C09,C11,C12 kind=bounded bound="chunk size == 2; fruitless polls <= 2"
     #[kani::proof]
     #[kani::unwind(18)]
     #[kani::stub(std::sync::atomic::Atomic::<usize>::fetch_add, a_faa)]
